@@ -415,6 +415,18 @@ void tensors() {
       c[2] *= (T)0.015625;
       c[4] *= (T)0.015625;
     }
+    // structured stress states (the last 24 tensors): a single non-zero component, and a hydrostatic state -p I plus a single
+    // shear component - pure xy, xz, yz shear, uniaxial tension
+    if (it >= N - 24) {
+      const int k = (N - 1 - it) % 6, variant = (N - 1 - it) / 6;  // component, 0..3
+      const T keep = c[k] != 0 ? c[k] : (T)2.5, p = variant >= 2 ? c[6] : (T)0;
+      for (int i = 0; i < 6; i++) c[i] = 0;
+      c[0] = c[3] = c[5] = variant >= 2 ? -p : (T)0;
+      if (variant % 2 == 0 || (k != 0 && k != 3 && k != 5))
+        c[k] = (k == 0 || k == 3 || k == 5) ? c[k] + keep : keep;
+      else
+        c[k] = c[k] + keep;
+    }
     // von Mises stress
     {
       const Stress<T> sg(SymmetricDyad<T>(c[0], c[1], c[2], c[3], c[4], c[5]), Unit::Pressure::Pascal);
